@@ -142,6 +142,7 @@ class RemoteSession:
         self.rx_log: list[tuple[float, bytes]] = []
         self.tx_log: list[tuple[float, bytes]] = []
         self.eof_at: float | None = None
+        self.closed_local_at: float | None = None
         self.reset_seen = False
         self.reading = True
         # kernel TCP timing is real while our clock is virtual: never let Nagle / delayed ACK hold bytes back
@@ -227,6 +228,8 @@ class RemoteSession:
         return await self.wait_for(lambda s: s.closed, vtimeout)
 
     def close(self) -> None:
+        if self.closed_local_at is None:
+            self.closed_local_at = self.lab.clock.now
         try:
             self.sock.close()
         except OSError:
@@ -236,6 +239,8 @@ class RemoteSession:
 
     def reset(self) -> None:
         """RST instead of FIN"""
+        if self.closed_local_at is None:
+            self.closed_local_at = self.lab.clock.now
         try:
             self.sock.setsockopt(socket.SOL_SOCKET, socket.SO_LINGER, struct.pack('ii', 1, 0))
             self.sock.close()
